@@ -50,11 +50,15 @@ TokExact(e) == /\ TokShape(e) /\ e.l = line /\ e.c = col
 \* ---- named deviations
 \* DevMultiByteEnd / DevZeroLen: after a token whose last code point is multi-byte, or that is empty, every later
 \* column on the same line is one too large (the token's own end column too when its last code point is multi-byte)
+\* Whether DevMultiByteEnd occurs at a token is READ OFF the token itself: its end column is one too large. Only then
+\* does the drift of the following tokens grow (a lexer that reports the exact end column must also place the
+\* next token exactly, and vice versa -- a mixture is rejected).
+EndBase(e) == LET ep == EndPosOf(e.o, e.e, line, col) IN <<ep[1], ep[2] + (IF ep[1] = line THEN DriftSum ELSE 0)>>
+MbDev(e) == LastIsMultiByte(e.o, e.e) /\ e.el = EndBase(e)[1] /\ e.ec = EndBase(e)[2] + 1
 TokDrift(e) == /\ TokShape(e) /\ e.l = line /\ e.c = col + DriftSum
-               /\ LET ep == EndPosOf(e.o, e.e, line, col) IN
-                  /\ e.el = ep[1]
-                  /\ e.ec = ep[2] + (IF ep[1] = line THEN DriftSum ELSE 0) + (IF LastIsMultiByte(e.o, e.e) THEN 1 ELSE 0)
-               /\ DriftSum > 0 \/ LastIsMultiByte(e.o, e.e)
+               /\ e.el = EndBase(e)[1]
+               /\ e.ec = EndBase(e)[2] \/ MbDev(e)
+               /\ DriftSum > 0 \/ MbDev(e)
 \* DevErrMultiByte / DevErrLexemeTail: the error token does not cover the offending lexeme [pos, q] but only its
 \* LAST BYTE q (an unrecognised multi-byte character: its last byte, with the column of the next character --
 \* DevErrMultiByte; `1.` without fractional digits: only the `.`, the digits stay uncovered -- DevErrLexemeTail)
@@ -69,11 +73,13 @@ ErrTailName(e) == IF LastStart(inp, pos, e.o) = pos THEN "DevErrMultiByte" ELSE 
 \* DevErrInline: the error token for a number without fractional digits (`1.`) is emitted at the `.`, BEFORE the
 \* number token that covers the same bytes, and lexing goes on: an out-of-band token inside the cover
 NextIsEof == l + 1 <= Len(Trace) /\ Trace[l + 1].ev = "Tok" /\ Trace[l + 1].t = "EOF"
-DriftName == IF drift[2] = 0 THEN "DevMultiByteEnd" ELSE IF drift[1] = 0 THEN "DevZeroLen" ELSE "DevMultiByteEnd+DevZeroLen"
+NameOf(mb, zl) == IF zl = 0 THEN "DevMultiByteEnd" ELSE IF mb = 0 THEN "DevZeroLen" ELSE "DevMultiByteEnd+DevZeroLen"
+DriftName == NameOf(drift[1], drift[2])
+TokDevName(e) == NameOf(drift[1] + (IF MbDev(e) THEN 1 ELSE 0), drift[2])
 
 AdvanceTok(e) ==
   LET r == Adv(inp, e.o, e.e, line, col)
-      mb == LastIsMultiByte(e.o, e.e)
+      mb == MbDev(e)
       zl == e.e < e.o
       nl == r[2] # line
       base == IF nl THEN <<0, 0>> ELSE drift
@@ -113,7 +119,7 @@ Step(e) ==
     [] e.ev = "Tok" /\ big -> Same /\ UNCHANGED skip
     [] e.ev = "Tok" /\ e.t # "EOF" ->
          IF TokExact(e) THEN AdvanceTok(e) /\ UNCHANGED <<inp, hist, big, n, eof, skip>>
-         ELSE IF TokDrift(e) THEN Dev(IF DriftSum = 0 THEN "DevMultiByteEnd" ELSE DriftName) /\ AdvanceTok(e) /\ UNCHANGED <<inp, hist, big, n, eof, skip>>
+         ELSE IF TokDrift(e) THEN Dev(TokDevName(e)) /\ AdvanceTok(e) /\ UNCHANGED <<inp, hist, big, n, eof, skip>>
          ELSE IF ErrTail(e) /\ ~NextIsEof THEN Dev("DevErrInline") /\ Same /\ UNCHANGED skip
          ELSE IF ErrTail(e) THEN /\ Dev(ErrTailName(e)) /\ err' = TRUE
                                       /\ LET r == Adv(inp, pos, e.e, line, col) IN pos' = r[1] /\ line' = r[2] /\ col' = r[3]
